@@ -173,6 +173,8 @@ def run(rep, thorough):
             report(rep, desc, prof, 'window', w, oc)
     rowwise_probe(rep)
     like_probe(rep, thorough)
+    nq += month_days(rep)
+    date_interval_probe(rep)
     rep.solver(time.time() - t0, nq)
     rep.cov['functions_encoded'] = list(rep.cov.get('functions_encoded', [])) + ['array::ops::substring::{closure#0} (from MIR)']
     rep.cov.setdefault('bounds', {})
@@ -349,3 +351,122 @@ def like_probe(rep, thorough):
         what = 'LIKE %s: %d pattern(s), first %r: %s' % (kind, len(items), p, json.dumps(detail))
         out_c = rep.counterexample('probe:like:%s' % kind, what[:500], {'stmts': stmts[:1] + ['select k from t where s like %s' % lit(p)], 'patterns': [x[0] for x in items][:40], 'detail': detail}, True)
         rep.obligation(out_c == 'known')
+
+
+def month_days(rep):
+    """`get_month_days(year, month)` (the clamp `Date + Interval` applies after adding months / years), from MIR, against
+    the Gregorian rule for every i32 year and each month."""
+    from z3 import SRem
+    desc = 'get_month_days(year, month)'
+    try:
+        vm = make_vm(True)
+        c = [n for n in vm.prog.find(r'^(date::)?get_month_days$')]
+        if not c:
+            raise Inconclusive('date::get_month_days not found in the MIR')
+        fn = c[0]
+    except (Inconclusive, Unsupported, MirSyntax, KeyError) as ex:
+        rep.fail_inconclusive('%s: %s' % (desc, ex))
+        return 0
+    y = BitVec('gm_year', 32)
+    leap = And(SRem(y, 4) == 0, Or(SRem(y, 100) != 0, SRem(y, 400) == 0))
+    nq = 0
+    rep.cov['programs'] += 1
+    for month, days in enumerate([31, 28, 31, 30, 31, 30, 31, 31, 30, 31, 30, 31], start=1):
+        try:
+            outs = vm.run(fn, [BV(y, True), mk_int(month, 'usize')])
+        except (Unsupported, MirSyntax, KeyError, AttributeError) as ex:
+            rep.fail_inconclusive('%s: %s: %s' % (desc, type(ex).__name__, str(ex)[:300]))
+            return nq
+        for o in outs:
+            nq += 1
+            pc = list(o.pc)
+            if o.kind != 'ret':
+                st, mdl = engine.satisfiable(pc)
+                claim = None
+            else:
+                ref = If(leap, BitVecVal(29, 32), BitVecVal(28, 32)) if month == 2 else BitVecVal(days, 32)
+                st, mdl = check(pc, o.value.v == ref)
+            if st == 'unsat':
+                rep.obligation(True)
+                continue
+            if st != 'sat':
+                rep.obligation(False)
+                rep.fail_inconclusive('solver unknown: %s' % desc)
+                continue
+            yy = sg(mdl.eval(y, model_completion=True).as_long(), 32)
+            # replayable through SQL when the year has a date literal: move into 1..9999 keeping the year modulo 400
+            ry = yy % 400 + 1600 if not 1 <= yy <= 9999 else yy
+            rp = date_interval_replay(ry, month)
+            what = '%s: for year %d, month %d the clamp is not the length of that month; end to end (year %d): %s' % (desc, yy, month, ry, json.dumps(rp['how'])[:300])
+            out = rep.counterexample('kernel:date-add-interval:month-length', what[:500], {'year': yy, 'month': month, 'replay': rp}, rp['reproduced'])
+            rep.obligation(out == 'known')
+    rep.sample({'kernel': desc, 'obligation': 'month length', 'verdict': 'equals the Gregorian month length for every i32 year and every month'}, cap=1)
+    rep.cov['functions_encoded'] = list(rep.cov.get('functions_encoded', [])) + ['date::get_month_days, is_leap_year (from MIR)']
+    return nq
+
+
+def add_months(d, n):
+    """date + n months with the day clamped to the length of the target month (SQL / PostgreSQL semantics)."""
+    import calendar, datetime
+    t = d.year * 12 + (d.month - 1) + n
+    yy, mm = divmod(t, 12)
+    return datetime.date(yy, mm + 1, min(d.day, calendar.monthrange(yy, mm + 1)[1]))
+
+
+def date_interval_replay(year, month):
+    import datetime
+    prev = add_months(datetime.date(year, month, 1), -1)
+    src = datetime.date(prev.year, prev.month, 31 if prev.month in (1, 3, 5, 7, 8, 10, 12) else 30 if prev.month != 2 else 28)
+    exp = add_months(src, 1)
+    stmts = ["select date '%s' + interval '1' month" % src.isoformat()]
+    out, rc, err = rl('sql', {'engine': 'mem', 'stmts': stmts})
+    o = out[0] if out else {}
+    got = o['rows'][0][0] if o.get('ok') and o.get('rows') else ('panic' if o.get('panicked') else o.get('err'))
+    return {'reproduced': got != exp.isoformat(), 'how': {'stmts': stmts, 'engine': got, 'expected': exp.isoformat()}}
+
+
+def date_interval_probe(rep):
+    """Concrete probe (chrono is outside the interpreter): DATE +/- INTERVAL of whole months / years over month ends of
+    leap, non-leap and century years, as constants and as a column, against python's calendar."""
+    import datetime
+    dates = []
+    for y in (1900, 1996, 1999, 2000, 2001, 2004, 2100, 2400):
+        for m, d in ((1, 29), (1, 30), (1, 31), (2, 28), (3, 31), (5, 31), (8, 31), (10, 31), (12, 31), (6, 15)):
+            dates.append(datetime.date(y, m, d))
+        if y % 4 == 0 and (y % 100 != 0 or y % 400 == 0):
+            dates.append(datetime.date(y, 2, 29))
+    ivs = [1, 2, 11, 12, 13, 24, 48, -1, -2, -12, -13]
+    stmts = ['create table t(k int not null, d date not null)', 'insert into t values ' + ', '.join("(%d, date '%s')" % (i, d.isoformat()) for i, d in enumerate(dates))]
+    qs = []
+    for n in ivs:
+        unit = "interval '%d' month" % abs(n) if abs(n) % 12 else "interval '%d' year" % (abs(n) // 12)
+        qs.append((n, 'select k, d %s %s from t order by k' % ('+' if n > 0 else '-', unit)))
+    out, rc, err = rl('sql', {'engine': 'mem', 'stmts': stmts + [q for _, q in qs]}, timeout=120)
+    res = {o['sql']: o for o in out if 'sql' in o}
+    rep.cov['programs'] += 1
+    bad = []
+    ran = 0
+    for n, q in qs:
+        o = res.get(q)
+        if o is None:
+            continue
+        ran += 1
+        if not o.get('ok') or o.get('panicked'):
+            bad.append((q, 'panic' if o.get('panicked') else o.get('err'), None))
+            continue
+        for (k, got), d in zip(o['rows'], dates):
+            exp = add_months(d, n).isoformat()
+            if got != exp:
+                bad.append((q, '%s gives %s' % (d.isoformat(), got), exp))
+    if ran < len(qs):
+        rep.obligation(False)
+        rep.fail_inconclusive('DATE + INTERVAL probe: %d of %d queries ran: %s' % (ran, len(qs), err[-200:]))
+        return
+    if not bad:
+        rep.obligation(True)
+        rep.sample({'kernel': 'DATE +/- INTERVAL: %d dates x %d intervals' % (len(dates), len(ivs)), 'obligation': 'calendar probe (concrete)', 'verdict': 'every result is the calendar date with the day clamped to the month length'}, cap=1)
+        return
+    q, got, exp = bad[0]
+    what = 'DATE +/- INTERVAL: %d wrong results, first: %s -> %s, calendar says %s' % (len(bad), q, got, exp)
+    outc = rep.counterexample('probe:date-add-interval', what[:500], {'stmts': stmts[:2] + [q], 'wrong': bad[:20]}, True)
+    rep.obligation(outc == 'known')
